@@ -30,6 +30,7 @@ RULE = (
     ' Round 7: incoming sets with the ack flag (echoes) between park and wake.'
     ' Round 8: `bystander` gateway holding its own command for the same node id.'
     ' Round 9: `hang k` (the k-th write of the next received line never completes; the listener is cancelled).'
+    ' Round 10: an equal command parked again after an earlier wake delivered it (enumerated).'
 )
 ASSUMPTIONS = [
     "for protocols 1.4/1.5, which have no wake message, 'next wake' is observed after the gateway reports 2.2.0 and the node sends a pre-sleep notification",
